@@ -176,3 +176,29 @@ for _p, _tiers in (("C01", ("thorough",)), ("C02", ("quick", "thorough"))):
     for _t in _tiers:
         PLANS[_p][_t]["stages"] = ["offline"]
         PLANS[_p][_t]["stage_plans"] = {"offline": dict(_OFF, count=150 if _t == "quick" else 400, budget_s=6 if _t == "quick" else 20)}
+
+# thorough tier of every property: `reach` (which lines of /repo/src the check's own workload executed) and, where the
+# statement is not tied to debug-assertion builds, `rel` (the same monitors in a release build)
+import json as _json
+import os as _os
+
+_PROPS = _os.path.join(_os.path.dirname(_os.path.dirname(_os.path.abspath(__file__))), "properties.jsonl")
+_ANCHORS = {}
+try:
+    for _l in open(_PROPS):
+        _d = _json.loads(_l)
+        _ANCHORS[_d["id"]] = _d.get("anchors", {}).get("files", [])
+except OSError:
+    pass
+for _p, _pl in PLANS.items():
+    _t = _pl["thorough"]
+    _q = _pl["quick"]
+    _t.setdefault("stages", [])
+    _t.setdefault("stage_plans", {})
+    _t["stages"] = list(_t["stages"])
+    if _p != "C07":
+        _t["stages"].append("rel")
+        _t["stage_plans"]["rel"] = {"count": _q["count"] * 4, "budget_s": 40, "watchdog_s": 1200}
+    _t["stages"].append("reach")
+    _t["stage_plans"]["reach"] = {"shards": 4, "count": max(1, _q["count"] // 2), "budget_s": 8, "watchdog_s": 900,
+                                  "anchors": _ANCHORS.get(_p, [])}
